@@ -9,6 +9,12 @@ CHECKS = {
         "note": "trusts jqref as a reading of the manual (calibrated on every run against the manual's ~570 examples; a disagreement there makes the run a broken check, not a verdict); corners the manual leaves open are skipped (Appendix B)",
         "technique": "runtime monitoring: reference-model monitor (definitional interpreter vs real execution) + metamorphic binder wrappers",
     },
+    "C02": {
+        "text": "Held on the executions observed: path expressions composed to depth 2 from 26 path atoms (., .., .[], .[i], slices, ?-variants, multi-valued indices, first/last/limit/skip, select, recurse, getpath, empty, error) by | , // if as def reduce foreach label try, over all JSON trees of <= 3 nodes plus sampled (quick) / 400 per expression (thorough) trees of <= 4-5 nodes: [p], path(p), getpath(path(p)), p |= u for 7 update filters (0/1/2 outputs, error), = += //= compared output by output with jqref's row-by-row implementation of the two tables of advanced.dj; plus ~2500 in-language equations (every row of the update table, iter_upd/index_upd/slice_upd verbatim from the manual, derived filters against path(), value-constructing expressions and unsupported left-hand sides must fail) with both sides run by the same binary.",
+        "design_ref": "DESIGN.md §4 C02",
+        "note": "trusts jqref.paths/update as a reading of advanced.dj; the manual's displayed *_upd definitions are used only on the domain where they agree with the manual's prose (triage log, DESIGN §8); key order after deleting updates not compared",
+        "technique": "runtime monitoring: reference-model monitor for path()/update tables + in-language metamorphic equations, exhaustive small scope",
+    },
     "C08": {
         "text": "Held on the executions observed: whole comparison matrices over pools of typed values (every number representation of equal values, representation boundaries, text/byte strings, objects in different insertion orders) computed by the real interpreter, compared with the manual's order and checked model-free for trichotomy, antisymmetry and transitivity; sort/unique/group_by/min/max/bsearch/array-minus checked against the same order; model-equal values substituted for each other in 20 lookup/dedup contexts. Bounded by the pools; no proof.",
         "design_ref": "DESIGN.md §4 C08",
